@@ -43,7 +43,8 @@ def translated(name):
         return True
     # table.py: the methods the translators read (hunk headers and context lines name them)
     return bool(re.search(r'_cast_metadata|_index_ids|_union_id_order|_intersect_id_order|_invert_axis|_axis_to_num|def sum\b|'
-                          r'add_metadata|del_metadata|__eq__|__ne__|descriptive_equality|_data_equality|update_ids|self\._sample_metadata = ', txt))
+                          r'add_metadata|del_metadata|__eq__|__ne__|descriptive_equality|_data_equality|update_ids|self\._sample_metadata = |'
+                          r'def concat|def partition|def collapse|delimited_self|_extract_data_from_tsv|table_summarizer|nonzero_counts|get_table_density', txt))
 
 par = [n for n in names if not translated(n)]
 ser = [n for n in names if translated(n)]
